@@ -95,13 +95,14 @@ func (d *Dir) Write(files map[string][]byte) error {
 
 	d.log.Infof("Atomic write to %s", d.target)
 
-	if d.prev != nil {
-		if err := os.RemoveAll(*d.prev); err != nil {
-			return err
+	// The new version is live from here on: failing to clean up the old one does not make this write a failed one
+	prev := d.prev
+	d.prev = &newDir
+	if prev != nil {
+		if err := os.RemoveAll(*prev); err != nil {
+			d.log.Warnf("Failed to remove previous version %s: %v", *prev, err)
 		}
 	}
-
-	d.prev = &newDir
 
 	return nil
 }
